@@ -117,7 +117,8 @@ def pow_pauli_combination(
     t = (ai - v) ** exponent
 
     ci = (s + t) / 2
-    if s == t:
+    # s == t alone does not mean that v is negligible: (ai + v)/(ai - v) can be a root of unity.
+    if v == 0 or (not isinstance(v, sympy.Basic) and abs(v) <= 1e-8 * abs(ai)):
         # v is near zero, only one term in binomial expansion survives
         cxyz = exponent * ai ** (exponent - 1)
     else:
